@@ -15,7 +15,7 @@ def run(job):
                         "--shards", "4"], capture_output=True, text=True, cwd=ROOT,
                        env=dict(os.environ, VERIF_NO_EVIDENCE="1"))
     keys = sorted({l.split()[1].rstrip(":") for l in r.stdout.splitlines() if l.strip().startswith("failure ")})
-    return {"property": pid, "mutant": os.path.basename(patch), "exit": r.returncode, "caught": r.returncode == 1,
+    return {"property": pid, "mutant": os.path.basename(patch), "exit": r.returncode, "caught": r.returncode == 1 and bool(keys),
             "keys": keys[:4], "wall_s": round(time.time() - t0, 1)}
 with ThreadPoolExecutor(4) as ex:
     results = list(ex.map(run, jobs))
